@@ -225,6 +225,98 @@ func runC17(c *Ctx) {
 	}
 	c.Lap("compare")
 
+	// ---- correspondence with the Coq model (Core/CompileTiny.v): subset membership, behaviour of
+	// the modelled tinyfo lowering (run_tiny), and K1 structure on tinyfo's real output
+	modelRun, modelK1, modelSubset := 0, 0, 0
+	if oracleHas(c, "C17") {
+		or := c.Oracle()
+		budget := 2
+		k1max := c.Pick(40, 600)
+		tdir := filepath.Join(c.Work, "c17k1")
+		os.MkdirAll(tdir, 0o755)
+		for i, p := range progs {
+			if p.RawFo != "" || p.Hazard != "" || usesExtPartial(p) || casesT[i].FcErr != "" {
+				continue
+			}
+			sx := p.ToSexp()
+			sub := or.AskRaw("C17", "(subset "+sx+")")
+			if sub == "TINY" {
+				modelSubset++
+			} else {
+				c.Count("model_says_not_tiny")
+				c.Note("model subset: %s on a program tinyfo accepts: %s", clip(sub, 100), clip(sx, 160))
+				continue
+			}
+			ans := ""
+			for _, fuel := range []int{3000, 40000} {
+				ans = or.AskRaw("C17", fmt.Sprintf("(run_tiny %d %s)", fuel, sx))
+				if ans != "FUEL" {
+					break
+				}
+			}
+			if ans == "FUEL" || strings.HasPrefix(ans, "ERR") {
+				c.Count("model_unavailable:run_tiny")
+				continue
+			}
+			modelRun++
+			c.Compared(1)
+			got := ans
+			if strings.HasPrefix(ans, "OUT ") {
+				got = "OUT " + Sq(Unsq(strings.TrimPrefix(ans, "OUT ")))
+			}
+			if got != "OUT "+Sq(casesT[i].Expect.Out) {
+				c.Disagree()
+				if budget > 0 && casesT[i].verdict() == "" {
+					budget--
+					c.Violate("corr-run_tiny", fmt.Sprintf("correspondence broke: fomodel run_tiny answers %s where tinyfo+Go and the reference interpreter print %q", clip(ans, 100), clip(casesT[i].Expect.Out, 80)),
+						map[string]any{"broken": "correspondence Coq model (run_tiny) vs tinyfo+Go", "program_sexp": sx, "source": ToFolangOpts(p, PrintOpts{OwnPkgInfo: true, Tiny: true})}, true)
+				}
+			}
+			// K1 needs tinyfo alone on the unsuffixed program (its temporary counter is never reset)
+			if modelK1 < k1max {
+				want := or.AskRaw("C17", "(compile_tiny "+sx+")")
+				if strings.HasPrefix(want, "ERR") || strings.HasPrefix(want, "STUCK") {
+					continue
+				}
+				MustWrite(filepath.Join(tdir, "m.fo"), ToFolangOpts(p, PrintOpts{OwnPkgInfo: true, Tiny: true}))
+				os.Remove(filepath.Join(tdir, "gen_m.go"))
+				r := Run(tdir, 60*time.Second, 2048, nil, filepath.Join(c.Bin, "tinyfo"), "m.fo")
+				b, err := os.ReadFile(filepath.Join(tdir, "gen_m.go"))
+				if r.Exit != 0 || err != nil {
+					continue
+				}
+				canon, err := gcCanonFile(string(b))
+				if err != nil {
+					continue
+				}
+				modelK1++
+				c.Compared(1)
+				g, w := gcNormalise(canon), gcNormalise(strings.TrimSpace(want))
+				if g != w {
+					c.Disagree()
+					c.Count("k1_structure_differs")
+					if budget > 0 {
+						budget--
+						k := 0
+						for k < len(g) && k < len(w) && g[k] == w[k] {
+							k++
+						}
+						lo := k - 60
+						if lo < 0 {
+							lo = 0
+						}
+						c.Violate("corr-compile_tiny", "correspondence broke: the Go emitted by tinyfo differs structurally from CompileTiny.compile_tiny",
+							map[string]any{"broken": "correspondence Coq model (compile_tiny, K1 structure) vs tinyfo", "program_sexp": sx,
+								"tinyfo_canonical_near_difference": clip(g[lo:], 300), "model_canonical_near_difference": clip(w[lo:], 300)}, true)
+					}
+				}
+			}
+		}
+	} else {
+		c.Note("the C17 oracle driver is not present in bin/fomodel: no program was compared with the Coq model in this run")
+	}
+	c.Lap("model")
+
 	ex := c.Res.Extra
 	ex["feature_census"] = rt.census.Features
 	ex["statement_census"] = rt.census.Stmts
@@ -241,10 +333,11 @@ func runC17(c *Ctx) {
 	ex["accepted_by_fc"] = acceptedF
 	ex["tinyfo_and_fc_same_stdout"] = same
 	ex["compared_with_reference_interpreter"] = c.Res.Compared
-	ex["compared_with_coq_model"] = 0
+	ex["compared_with_coq_run_tiny"] = modelRun
+	ex["compared_with_coq_compile_tiny_structure"] = modelK1
+	ex["model_confirms_tiny_subset"] = modelSubset
 	ex["generator_stats"] = GenStats
 	ex["profile"] = prof
-	c.Note("the Coq model is not consulted by this harness: C17's correspondence is tinyfo+Go and fc+Go against the reference interpreter and each other")
 	for _, i := range []int{0, len(progs) / 2} {
 		if i < len(progs) {
 			c.Sample(map[string]any{"origin": origins[i], "source": ToFolangOpts(progs[i], PrintOpts{OwnPkgInfo: true, Tiny: true}),
